@@ -131,7 +131,7 @@ def prop(case):
                 raise Violation("collision-changed-state", "%s: the refused call changed the Gfa" % ctx, "unname")
             check_namespace(run, ctx)
             continue
-        if kind in ("collide_add", "collide_rename"):
+        if kind in ("collide_add", "collide_rename", "collide_give_id"):
             before = O.observe(run.gfa)
             btext = str(run.gfa)
             what = op[-1]
@@ -140,6 +140,15 @@ def prop(case):
             try:
                 if kind == "collide_add":
                     run.gfa.add_line(op[1])
+                elif kind == "collide_give_id":
+                    rec = run.model.recs[op[1]]
+                    line = run.find_line(rec)
+                    if line is None:
+                        raise Violation("line-lost", "%s: no line for %r" % (ctx, rec.text()))
+                    if op[3] == "set":
+                        line.set("ID", op[2])
+                    else:
+                        line.ID = op[2]
                 else:
                     rec = run.model.recs[op[1]]
                     line = run.find_line(rec)
@@ -165,7 +174,7 @@ def prop(case):
                         return dict(labels, group_rename_merged=True)
                 else:
                     raise Violation("collision-accepted", "%s: %s to an identifier in use raised nothing\n-- before --\n%s\n-- after --\n%s" % (
-                        ctx, "adding a line" if kind == "collide_add" else "renaming", btext, str(run.gfa)), what)
+                        ctx, {"collide_add": "adding a line", "collide_give_id": "giving a link/containment the ID"}.get(kind, "renaming"), btext, str(run.gfa)), what)
             else:
                 if what == "group_merge_add":
                     raise Violation("merge-refused", "%s: a second %s line with the same identifier must be merged, raised %s: %s" % (
@@ -183,7 +192,18 @@ def prop(case):
                 if any(m_[0] == old for r_ in run.model.recs for m_ in M.mentions(r_)):
                     renamed_ref = True
             try:
-                if kind == "drop_id":
+                if kind == "give_id":
+                    # a link or containment without identifier is given one (set() or attribute)
+                    rec = run.model.recs[op[1]]
+                    line = run.find_line(rec)
+                    if line is None:
+                        raise LookupError("model record %r has no line in the Gfa" % rec.text())
+                    if op[3] == "set":
+                        line.set("ID", op[2])
+                    else:
+                        line.ID = op[2]
+                    rec.tags = list(rec.tags) + [("ID", "Z", op[2])]
+                elif kind == "drop_id":
                     # an ID-tagged link or containment gives its identifier up
                     rec = run.model.recs[op[1]]
                     line = run.find_line(rec)
@@ -327,6 +347,19 @@ def gen_case(r, version):
             cands = [j for j, rec in enumerate(st_.model.recs) if rec.rt in "EGOU" and M.name_of(rec) is not None and
                      any(m_[0] == M.name_of(rec) for x_ in st_.model.recs for m_ in M.mentions(x_))]
             ops.append(["unname_mentioned", gen.choice(r, cands)])
+        elif x < 0.67 and x >= 0.64 and version == "gfa1" and any(rec.rt in "LC" and not rec.tag("ID") for rec in st_.model.recs):
+            i = gen.choice(r, [j for j, rec in enumerate(st_.model.recs) if rec.rt in "LC" and not rec.tag("ID")])
+            rec = st_.model.recs[i]
+            how = gen.choice(r, ["set", "set", "attr"])
+            if names and gen.chance(r, 0.4):
+                ops.append(["collide_give_id", i, gen.choice(r, sorted(names)), how, "give_id_in_use"])
+            else:
+                pool = [n for n in INT_NAMES + H.FRESH[:6] if n not in names and n not in st_.model.undefined_mentions()]
+                if not pool:
+                    continue
+                new = gen.choice(r, pool)
+                rec.tags = list(rec.tags) + [("ID", "Z", new)]
+                ops.append(["give_id", i, new, how])
         elif x < 0.64 and version == "gfa1" and any(rec.rt in "LC" and rec.tag("ID") for rec in st_.model.recs):
             i = gen.choice(r, [j for j, rec in enumerate(st_.model.recs) if rec.rt in "LC" and rec.tag("ID")])
             rec = st_.model.recs[i]
